@@ -330,7 +330,23 @@ func ruleDequeResize(c *Ctx, r *R) {
 		okEnds = ok && bin.Op == token.SUB && bin.X == ssa.Value(lenCall.(*ssa.Call)) && isConstInt(bin.Y, 1)
 	}
 	r.ok(okEnds, "deque.Deque.resize|ends-reset", rs.Pos(), "after resize the contents start at 0: front = 0 and back = oldLen-1 (−1 encodes empty)")
-	r.ok(copies >= 3, "deque.Deque.resize|copies-both-halves", rs.Pos(), "resize must copy the contiguous case and both halves of the wrapped case")
+	// the segments copied: distinct sub-slices of the old buffer that reach a copy as its source (directly or as the result of a
+	// helper that picks the segments)
+	segs := map[ssa.Value]bool{}
+	for _, di := range deepInstrs(rs, 2) {
+		if call, ok := di.in.(*ssa.Call); ok {
+			if bi, ok := call.Call.Value.(*ssa.Builtin); ok && bi.Name() == "copy" && len(call.Call.Args) == 2 {
+				for _, lf := range valueLeaves(call.Call.Args[1], di.calls, 0) {
+					if sl, ok := lf.v.(*ssa.Slice); ok {
+						if f, _, ok := rootField(sl.X); ok && f == "a" {
+							segs[sl] = true
+						}
+					}
+				}
+			}
+		}
+	}
+	r.ok(copies >= 3 || len(segs) >= 3, "deque.Deque.resize|copies-both-halves", rs.Pos(), "resize must copy the contiguous case and both halves of the wrapped case")
 	// all copies happen before d.a is replaced and read from the old d.a
 	okCopy := true
 	for _, di := range deepInstrs(rs, 2) {
@@ -344,7 +360,25 @@ func ruleDequeResize(c *Ctx, r *R) {
 				okCopy = false
 			}
 			if f, _, ok := rootField(call.Call.Args[1]); !ok || f != "a" {
-				okCopy = false
+				// or a segment of the old buffer chosen by a helper (nil when there is nothing to copy)
+				fromOld := true
+				ls := valueLeaves(call.Call.Args[1], di.calls, 0)
+				for _, lf := range ls {
+					if isNilConst(lf.v) {
+						continue
+					}
+					sl, isSl := lf.v.(*ssa.Slice)
+					if !isSl {
+						fromOld = false
+						continue
+					}
+					if f2, _, ok2 := rootField(sl.X); !ok2 || f2 != "a" {
+						fromOld = false
+					}
+				}
+				if !fromOld || len(ls) == 0 {
+					okCopy = false
+				}
 			}
 		}
 	}
@@ -436,8 +470,17 @@ func ruleDequeExpandFloor(c *Ctx, r *R) {
 		}
 		gs := guardsOf(b)
 		if len(gs) == 1 {
-			if cf, ok := gs[0].asCmp(); ok && cf.op == token.EQL && strings.Contains(path(cf.x), "Len") && strings.HasPrefix(path(cf.y), "len(") {
-				cover = true
+			if cf, ok := gs[0].asCmp(); ok && cf.op == token.EQL {
+				xs, ys := symOf(cf.x, provEnv{}), symOf(cf.y, provEnv{})
+				isLenCall := func(e *sx) bool { return e != nil && (e.inl == "Len" || (e.op == "call" && e.s == "Len")) }
+				isBufLen := func(e *sx) bool { return e != nil && e.op == "len" && e.args[0].fieldSuffix("a") }
+				// Len() == len(d.a), or len(d.a) - Len() == 0 (a "spare capacity" helper)
+				if (isLenCall(xs) && isBufLen(ys)) || (isLenCall(ys) && isBufLen(xs)) {
+					cover = true
+				}
+				if xs.op == "-" && len(xs.args) == 2 && isBufLen(xs.args[0]) && isLenCall(xs.args[1]) && ys.isConst(0) {
+					cover = true
+				}
 			}
 		}
 	})
